@@ -308,17 +308,71 @@ def actual_degree(method, d):
     return int(AngularGrid(degree=d, method=method).degree)
 
 
-def make_config(rng, method, kind, thorough=False):
-    """kind: 'uniform' | 'mixed';  returns a JSON-able dict"""
-    n = rng.randint(4, 6)
+_ALIAS = {}
+
+
+def alias_sequences(method, max_degree=None):
+    """Mixed degree sequences whose total number of points equals (number of shells) x (size of ONE of the shells):
+    a "same angular grid on every shell" shortcut keyed on total size and one shell size wrongly fires on them
+    (Lebedev [9, 7, 11]: 38 + 26 + 50 = 3 * 38).  Computed from the size table of the method.  Returns a dict
+    position -> list of sequences, position of the matching shell: 'first' | 'last' | 'other'."""
+    if method in _ALIAS:
+        return _ALIAS[method]
+    if max_degree is None:
+        max_degree = 15 if method == "spherical" else 13     # the t-designs have no such sequence below degree 15
+    import itertools
+
+    from grid.angular import AngularGrid
+
+    sizes = {}
+    for d in range(4, max_degree + 1):
+        try:
+            a = AngularGrid(degree=d, method=method)
+        except Exception:  # noqa: BLE001
+            continue
+        sizes.setdefault(int(a.degree), int(a.size))
+    sizes = {d: n for d, n in sizes.items() if 4 <= d <= max_degree}
+    out = {"first": [], "last": [], "other": []}
+    for n in (3, 4, 5):
+        for combo in itertools.combinations_with_replacement(sorted(sizes), n):
+            if len(set(combo)) == 1:
+                continue
+            tot = sum(sizes[d] for d in combo)
+            for d in sorted(set(combo)):
+                if tot != n * sizes[d]:
+                    continue
+                rest = list(combo)
+                rest.remove(d)
+                # keep the sequence genuinely mixed next to the matching shell: largest remaining degree adjacent
+                rest.sort(key=lambda x: -x)
+                out["first"].append([d] + rest)
+                out["last"].append(rest + [d])
+                if rest[0] != d and rest[-1] != d:
+                    out["other"].append(rest[:1] + [d] + rest[1:])
+    _ALIAS[method] = out
+    return out
+
+
+def make_config(rng, method, kind, lead=None, rotated=False):
+    """kind: 'uniform' | 'mixed' | 'alias-first' | 'alias-last' | 'alias-other';  returns a JSON-able dict"""
+    alias = None
+    if kind.startswith("alias"):
+        seqs = alias_sequences(method).get(kind.split("-")[1], [])
+        if seqs:
+            alias = list(rng.choice(seqs))
+        else:
+            kind = "mixed"
+    n = len(alias) if alias else rng.randint(4, 6)
     rs = sorted(rng.sample(RPOOL, n))
-    lead = rng.choice(["zero", "zero", "tiny", "none"])
+    lead = lead or rng.choice(["zero", "zero", "tiny", "none"])
     if lead == "zero":
         rs = [Fraction(0)] + rs[:n - 1]
     elif lead == "tiny":
         rs = [TINY] + rs[:n - 1]
     ws = [Fraction(1, 2 ** rng.randint(0, 3)) * rng.choice([1, 1, 2, 3]) for _ in rs]
-    if method == "ahrens_beylkin":
+    if alias:
+        degs = alias
+    elif method == "ahrens_beylkin":
         degs = [14] if kind == "uniform" else [rng.choice([14, 19]) for _ in rs]
     elif kind == "uniform":
         degs = [rng.choice([6, 7, 8, 9] if method != "maxdet" else [6, 7, 8])]
@@ -345,7 +399,7 @@ def make_config(rng, method, kind, thorough=False):
         # AtomGrid stores absolute coordinates: directions of a shell of radius 1e-9 about an off-origin centre are only
         # known to ~1e-7 in floating point (cancellation in points - center), which is outside the exact-arithmetic property
         centre = [0, 0, 0]
-    rotate = rng.choice([0, 0, 1, 7, 2023])
+    rotate = rng.choice([1, 7, 2023]) if rotated else rng.choice([0, 0, 1, 7, 2023])
     return {"r": [str(x) for x in rs], "w": [str(x) for x in ws], "degrees": degs, "method": method,
             "center": [str(Fraction(c)) for c in centre], "rotate": rotate, "L": L, "coef": coef, "mode": mode,
             "pseed": rng.randrange(2 ** 30)}
@@ -591,6 +645,9 @@ def check_atom(ctx, cfg, rec, B: Bucket, report, tag, axis_today=True):
 
     ctx.count(f"method={cfg['method']}")
     ctx.count("degrees=" + ("mixed" if len(set(info.degs)) > 1 else "uniform"))
+    sz = [int(info.idx[i + 1] - info.idx[i]) for i in range(info.n)]
+    if len(set(sz)) > 1 and any(sum(sz) == len(sz) * x for x in sz):
+        ctx.count("degrees=size-aliasing (total = n_shells x one shell size)")
     ctx.count("r0=" + ("zero" if info.r[0] == 0 else "tiny" if info.r[0] < 1e-8 else "none"))
     ctx.count(f"L={info.L}")
     ctx.count("rotate=" + ("0" if cfg["rotate"] == 0 else "seed"))
@@ -1083,11 +1140,17 @@ def plan(ctx: Ctx):
     cfgs = []
     if ctx.quick:
         combos = [("lebedev", "uniform"), ("lebedev", "mixed"), ("lebedev", "mixed"), ("spherical", "uniform"),
-                  ("spherical", "mixed"), ("maxdet", "uniform"), ("maxdet", "mixed"), ("lebedev", "uniform")]
+                  ("spherical", "mixed"), ("maxdet", "uniform"), ("maxdet", "mixed"), ("lebedev", "uniform"),
+                  ("lebedev", "alias-first"), ("lebedev", rng.choice(["alias-last", "alias-other"])),
+                  (rng.choice(["spherical", "maxdet"]), rng.choice(["alias-first", "alias-last", "alias-other"]))]
     else:
-        combos = [(m, k) for m in ("lebedev", "spherical", "maxdet") for k in ("uniform", "mixed")] * 20 + [("ahrens_beylkin", "uniform"), ("ahrens_beylkin", "mixed")] * 2
-    for m, k in combos:
-        cfgs.append(make_config(rng, m, k))
+        combos = [(m, k) for m in ("lebedev", "spherical", "maxdet") for k in ("uniform", "mixed")] * 20 + [("ahrens_beylkin", "uniform"), ("ahrens_beylkin", "mixed")] * 2 \
+            + [(m, k) for m in ("lebedev", "spherical", "maxdet") for k in ("alias-first", "alias-last", "alias-other")] * 4
+    for j, (m, k) in enumerate(combos):
+        # every run has a rotated grid with a node at r = 0 (canonical angles) and a rotated grid whose innermost radius is
+        # tiny but non-zero (regenerated weights, but the angles of the actual points)
+        forced = {0: ("zero", True), 1: ("tiny", True)}.get(j % 8 if not ctx.quick else j, (None, False))
+        cfgs.append(make_config(rng, m, k, lead=forced[0], rotated=forced[1]))
     mols = []
     for _ in range(1 if ctx.quick else 10):
         atoms = []
@@ -1152,20 +1215,36 @@ def run(ctx: Ctx):
 
     # ---- report: smallest inputs first, capped per obligation; a tie failure of a case whose property oracle already
     #      failed is implied by that failure and not reported separately
+    #      A hypothesis / tie / source-pattern failure without an input of its own is reported through Ctx.broken_tie with the
+    #      property failures found on the implementation as candidates (same configuration first), so that it carries a
+    #      replay whenever one exists.
     per = {}
-    for size, ob, key, obs, text, rp, found, dep in sorted(pending, key=lambda t: (t[0], len(str(t[2])))):
+    ordered = sorted(pending, key=lambda t: (t[0], len(str(t[2]))))
+    cands = [(key, obs, text, rp) for size, ob, key, obs, text, rp, found, dep in ordered if dep is None and found]
+
+    def same_input(a, b):
+        return (a.get("cfg") is not None and a.get("cfg") == b.get("cfg")) or (a.get("spec") is not None and a.get("spec") == b.get("spec"))
+
+    for size, ob, key, obs, text, rp, found, dep in ordered:
         if dep is not None:
             if dep[0]:
                 continue
             found = False
         per[ob] = per.get(ob, 0) + 1
-        if per[ob] <= MAXREP:
-            ctx.fail(ob, key, obs, text, rp, found_input=bool(found))
+        if per[ob] > MAXREP:
+            continue
+        if found:
+            ctx.fail(ob, key, obs, text, rp, found_input=True)
+        else:
+            mine = [c for c in cands if same_input(c[3], rp or {})] + [c for c in cands if not same_input(c[3], rp or {})]
+            ctx.broken_tie(ob, f"{text} [{key}]", mine)
     if pending:
         ctx.notes.append(f"{len(pending)} disagreements in total; at most {MAXREP} reported per obligation: " + json.dumps(per))
 
     ctx.cov["rule"] = ("atomic grids on dyadic radial nodes (subset of {1/8..4}, optionally preceded by r = 0 and / or r = 2^-30 < 1e-8), dyadic radial "
-                       "weights, uniform or mixed per-shell degrees (lebedev, spherical t-design, maxdet incl. even degrees; thorough also ahrens_beylkin), "
+                       "weights, uniform or mixed per-shell degrees (lebedev, spherical t-design, maxdet incl. even degrees; thorough also ahrens_beylkin) and "
+                       "size-aliasing mixed sequences computed from each method's size table (sum of shell sizes = n_shells x size of the first / last / "
+                       "another shell, e.g. Lebedev [9, 7, 11]), "
                        "three centres, rotation seeds {0, 1, 7, 2023}; f = sum_{l <= L} g_lm(r_i) Y_lm with integer tables g in [-3, 3], L <= min(3, min d_i / 2), "
                        "either single-valued at the centre or defined through the canonical angles there; a second table exercises the cached basis and the "
                        "stacked (2, N) input; 14-16 evaluation points per grid (centre, both polar half-axes, coordinate planes, beyond the last shell, grid "
